@@ -91,7 +91,9 @@ def model_check(ctx, prop):
     for base in cfgs:
         name = "%s_%s" % (prop, base)
         p = _derive_cfg(ctx, base, INVS[prop], name)
-        cov = ctx.quick or base != "SnapSeq_mc_thorough.cfg"
+        # -coverage 1 (vacuity guard, x2 cost) on the shared quick config and the kernel configs; the big config and
+        # the small probe configs (c10strict, c13chain: reachability shown by spec-level mutants, see notes) run plain
+        cov = base in ("SnapSeq_mc_quick.cfg", "SnapSeq_mc_kernel_quick.cfg", "SnapSeq_mc_kernel.cfg")
         res = tlc.run(ctx, "SnapSeqMC", name, extra_files=[p], coverage=cov, workers=ctx.pick(8, 16),
                       timeout=ctx.pick(900, 3000), heap=ctx.pick("6g", "12g"), name="mc_" + base[:-4])
         if not res.ok:
@@ -221,6 +223,22 @@ def replay(ctx, tb, histories, what):
         json.dump(histories, f)
     log, _ = _run_harness(ctx, tb, {"VERIF_REPLAY": p, "VERIF_N": 0}, what)
     return log
+
+
+# which directed scenarios the QUICK tier of each property replays (thorough: all of them, for every property)
+DIRECTED_FOR = {
+    "C10": ("d-nb-k1", "d-nb-k9", "d-nb-store", "d-attrs-", "d-order-n3-", "d-order-n4-t1", "d-missingrevs-"),
+    "C11": ("d-remove", "d-partial-discard-", "d-attrs-", "d-kernel-1", "d-nb-store", "d-missingrevs-"),
+    "C12": ("d-retain-", "d-kernel-", "d-missingrevs-", "d-blocked", "d-order-n4-t1"),
+    "C13": ("d-reverts-", "d-blocked", "d-nb-store", "d-nb-k1", "d-order-n3-t1", "d-kernel-1", "d-remove-current-inactive"),
+}
+
+
+def directed_for(ctx, prop):
+    hs = directed_histories()
+    if ctx.quick:
+        hs = [h for h in hs if h["id"].startswith(DIRECTED_FOR[prop])]
+    return hs
 
 
 def directed_histories():
@@ -794,7 +812,8 @@ def run(ctx, prop):
     strict = {"checked": [], "violations": []} if conf_only else strict_clauses(ctx, prop, tb)
     violations += strict["violations"]
 
-    dlog = replay(ctx, tb, directed_histories(), "directed")
+    directed = directed_for(ctx, prop)
+    dlog = replay(ctx, tb, directed, "directed")
     rlog, stats = record(ctx, tb)
     ctx.log("driver: %d events, %d changes, %d faults in %.0fs" % (stats["events"], stats["changes"], stats["faults"], stats["wall"]))
 
@@ -831,7 +850,7 @@ def run(ctx, prop):
         "invariants": INVS[prop], "strict_clauses": strict["checked"],
         "traces_validated_against_impl": ncases,
         "real_events_validated": len(rlog) + len(dlog), "real_changes": stats["changes"], "real_faults_injected": stats["faults"],
-        "directed_histories": len(directed_histories()),
+        "directed_histories": len(directed),
         "distinct_abstract_states_reached_by_real_executions": distinct,
         "relevant_real_cases": counts, "corruption_control": control, "samples": samples,
     }
